@@ -122,6 +122,37 @@ type builder struct {
 	lastRef     string
 	lastRefName name
 	lastRefKind kind
+	// name segments are drawn from this pool: segPool, or (one program in five) a small family of
+	// compound names — a base word, the base behind or in front of a kind word / keyword, in several letter
+	// cases — so that keys a resolver might build by concatenation (kind + alias, namespace + name) meet
+	pool      []string
+	bareAlias bool
+}
+
+// kindWords are words a resolver could glue to a name when it builds a lookup key.
+var kindWords = []string{"function", "const", "class", "use", "namespace", "self", "static", "parent", "int", "null", "true", "as"}
+
+func (b *builder) segPoolNow() []string {
+	if b.pool != nil {
+		return b.pool
+	}
+	if !b.chance(1, 5, "compoundfamily") {
+		b.pool = segPool
+		return b.pool
+	}
+	b.feats["names:compound-family"]++
+	b.bareAlias = true
+	base := b.pick("familybase", "Factory", "expr", "B", "ants", "VALUE", "x")
+	w1 := kindWords[b.intn(len(kindWords), "kw1")]
+	w2 := kindWords[b.intn(len(kindWords), "kw2")]
+	title := func(s string) string { return asciiUpper(s[:1]) + s[1:] }
+	b.pool = []string{base, asciiLower(base), w1 + base, title(w1) + title(base), asciiLower(w1 + base), base + w1, w2 + base, title(w2) + base, asciiLower(w2 + base), base + title(w2)}
+	return b.pool
+}
+
+func (b *builder) seg(label string) string {
+	p := b.segPoolNow()
+	return p[b.intn(len(p), label)]
 }
 
 func (b *builder) w(s string) { b.b.WriteString(s) }
@@ -236,7 +267,7 @@ func (b *builder) drawName(k kind, allowSpecial bool) name {
 			cl = append(cl, a)
 		}
 		sortStrings(cl)
-		first := segPool[b.intn(len(segPool), "seg")]
+		first := b.seg("seg")
 		if len(cl) > 0 && b.chance(2, 3, "qualalias") {
 			first = b.vary(cl[b.intn(len(cl), "alias")])
 			b.feats["ref:qualified-alias"]++
@@ -280,7 +311,7 @@ func (b *builder) segs(min, max int) []string {
 	n := rapid.IntRange(min, max).Draw(b.rt, "nsegs")
 	var out []string
 	for i := 0; i < n; i++ {
-		out = append(out, segPool[b.intn(len(segPool), "seg")])
+		out = append(out, b.seg("seg"))
 	}
 	return out
 }
